@@ -67,6 +67,10 @@ def load_entry(stream):
     return ("decode", stream)
 
 
+def load_result(stream, result):
+    return ("decoded-messages", list(result))
+
+
 def aligned(stream):
     """one whole message, or nothing: Message Length says exactly how many bytes there are"""
     if len(stream) < 20:
@@ -81,6 +85,7 @@ class _LoadAtCall:
     args = {"stream": T.Bytes()}
     at_calls = True
     log_entry = load_entry
+    log_result = load_result
     returns = T.OneOf(T.ListOf(), T.ListOf(inbound()), T.ListOf(inbound(), inbound()))
     raises = (AVPParsingError, DiameterMessageError)
     proof = "table"
@@ -121,7 +126,8 @@ def link_worker(self):
     total = b""
     for c in ev.chunks:
         total = total + c
-    return ghost_set("arrived", total) and ghost_set("chunks0", list(ev.chunks)) and ghost_set("ev", ev)
+    return ghost_set("arrived", total) and ghost_set("chunks0", list(ev.chunks)) and ghost_set("ev", ev) \
+        and ghost_set("rq_before", list(self._recv_messages.st["items"]))
 
 
 def decoded(log):
@@ -155,6 +161,20 @@ def _worker_contract(nchunks, whole):
 
         def ensures_lock_free_afterwards(self):
             return self.lock.st["held"] == False
+
+        def ensures_decoded_messages_queued_once_each_in_order(self):
+            # what the state machine will consume: exactly the messages the decoder returned, call after call,
+            # each once, in the order returned, behind whatever was queued before
+            want = list(ghost_get("rq_before"))
+            for e in event_log():
+                if e[0] == "decoded-messages":
+                    want = want + e[1]
+            got = self._recv_messages.st["items"]
+            ok = len(got) == len(want)
+            if ok:
+                for i in range(len(want)):
+                    ok = ok and got[i] is want[i]
+            return ok
 
         def exceptional(exc):
             return False
